@@ -4,10 +4,12 @@ package main
 import (
 	"bytes"
 	"fmt"
+	"strings"
 
 	"github.com/cnotch/ipchub/av/format/rtp"
 	"github.com/cnotch/ipchub/config"
 	"github.com/cnotch/ipchub/media"
+	"github.com/cnotch/ipchub/service/wsp"
 	"github.com/cnotch/xlog"
 	"github.com/kelindar/rate"
 
@@ -101,6 +103,164 @@ func tcpScenario(npk int, reqs []string) func(x *vrt.Exec) {
 	}
 }
 
+// wsScenario: the same race on a ws-rtsp session; every websocket message must be exactly one
+// response or one interleaved frame.
+func wsScenario(npk int, reqs []string) func(x *vrt.Exec) {
+	return func(x *vrt.Exec) {
+		vrt.Quiet(true)
+		media.VerifReset()
+		config.VerifSet(false, false, 5, "")
+		s := media.VerifNewBareStreamSDP("/live/cam", hx.SdpH264AAC)
+		media.Regist(s)
+		c := hs.NewWSRtsp("w", "/live/cam", "")
+		vrt.WhenIdle()
+		u := "rtsp://h/live/cam"
+		var codes []int
+		for _, st := range [][3]string{{"DESCRIBE", u, ""}, {"SETUP", u + "/streamid=0", "RTP/AVP/TCP;unicast;interleaved=0-1"}, {"SETUP", u + "/streamid=1", "RTP/AVP/TCP;unicast;interleaved=2-3"}, {"PLAY", u, ""}} {
+			h := map[string]string{}
+			if st[2] != "" {
+				h["Transport"] = st[2]
+			}
+			_, it := c.Do(st[0], st[1], h, "")
+			for _, r := range hs.Responses(it) {
+				codes = append(codes, r.Status)
+			}
+		}
+		if fmt.Sprint(codes) != "[200 200 200 200]" {
+			x.Failf("ws handshake-failed", "answers %v", codes)
+			return
+		}
+		var pk []*rtp.Packet
+		for i := 0; i < npk; i++ {
+			ch := byte(rtp.ChannelVideo)
+			if i%2 == 1 {
+				ch = rtp.ChannelAudio
+			}
+			pk = append(pk, hx.Pkt(ch, 96, true, uint16(i), uint32(3000*i), rtppack.H264Single(hx.NAL(2, 1, 30+i, byte(i)))))
+		}
+		vrt.Quiet(false)
+		vrt.GoNamed("publisher", func() {
+			for _, p := range pk {
+				s.WriteRtpPacket(p)
+			}
+		})
+		clientDone := false
+		vrt.GoNamed("client", func() {
+			for _, m := range reqs {
+				c.Send(m, u, nil, "")
+			}
+			clientDone = true
+		})
+		vrt.Point("join-client", &clientDone, func() bool { return clientDone })
+		vrt.WhenIdle()
+		vrt.Quiet(true)
+		items := c.Drain()
+		for _, t := range c.TornMsgs {
+			x.Failf("ws message-not-one-item", "%s", t)
+		}
+		fr := hs.Frames(items)
+		for i, f := range fr {
+			if i >= len(pk) || f.Channel != int(pk[i].Channel) || !bytes.Equal(f.Payload, pk[i].Data) {
+				x.Failf("ws frame-differs", "frame %d", i)
+				break
+			}
+		}
+		if len(fr) != len(pk) {
+			x.Failf("ws frame-count", "%d frames for %d packets", len(fr), len(pk))
+		}
+		x.Observe("frames=%d responses=%d", len(fr), len(hs.Responses(items)))
+		s.Close()
+		c.Sock.ClientClose()
+		vrt.WhenIdle()
+		for _, b := range vrt.Blocked() {
+			x.Failf("ws stuck-goroutine "+b.Name, "%s", b.Frames)
+		}
+	}
+}
+
+// wspScenario: WSP control channel (wrapped RTSP requests) vs. data channel (media).
+func wspScenario(npk int, reqs []string) func(x *vrt.Exec) {
+	return func(x *vrt.Exec) {
+		vrt.Quiet(true)
+		media.VerifReset()
+		config.VerifSet(false, false, 5, "")
+		s := media.VerifNewBareStreamSDP("/live/cam", hx.SdpH264AAC)
+		media.Regist(s)
+		srv := wsp.VerifNewServer()
+		c := hs.NewWSP(srv, "p", "/live/cam", "")
+		if c.Channel == "" {
+			x.Failf("wsp init-failed", "no channel id")
+			return
+		}
+		if j := c.Join(srv, "/live/cam", "", c.Channel); !strings.Contains(j, "200") {
+			x.Failf("wsp join-failed", "%q", j)
+			return
+		}
+		u := "rtsp://h/live/cam"
+		var codes []int
+		for _, st := range [][3]string{{"DESCRIBE", u, ""}, {"SETUP", u + "/streamid=0", "RTP/AVP/TCP;unicast;interleaved=0-1"}, {"SETUP", u + "/streamid=1", "RTP/AVP/TCP;unicast;interleaved=2-3"}, {"PLAY", u, ""}} {
+			h := map[string]string{}
+			if st[2] != "" {
+				h["Transport"] = st[2]
+			}
+			if r := c.Wrap(st[0], st[1], h); r != nil {
+				codes = append(codes, r.Status)
+			}
+		}
+		if fmt.Sprint(codes) != "[200 200 200 200]" {
+			x.Failf("wsp handshake-failed", "answers %v torn %v", codes, c.Torn)
+			return
+		}
+		var pk []*rtp.Packet
+		for i := 0; i < npk; i++ {
+			pk = append(pk, hx.Pkt(rtp.ChannelVideo, 96, true, uint16(i), uint32(3000*i), rtppack.H264Single(hx.NAL(2, 1, 30+i, byte(i)))))
+		}
+		vrt.Quiet(false)
+		vrt.GoNamed("publisher", func() {
+			for _, p := range pk {
+				s.WriteRtpPacket(p)
+			}
+		})
+		answered := 0
+		clientDone := false
+		vrt.GoNamed("client", func() { // a separate thread, so that requests can arrive while frames are in flight
+			for _, m := range reqs {
+				if r := c.Wrap(m, u, nil); r != nil {
+					answered++
+				}
+			}
+			clientDone = true
+		})
+		vrt.Point("join-client", &clientDone, func() bool { return clientDone })
+		vrt.WhenIdle()
+		vrt.Quiet(true)
+		fr := c.DataFrames()
+		for _, t := range c.Torn {
+			x.Failf("wsp message-not-one-item", "%s", t)
+		}
+		for i, f := range fr {
+			if i >= len(pk) || f.Channel != int(pk[i].Channel) || !bytes.Equal(f.Payload, pk[i].Data) {
+				x.Failf("wsp frame-differs", "data message %d does not carry published packet %d intact", i, i)
+				break
+			}
+		}
+		if len(fr) != len(pk) {
+			x.Failf("wsp frame-count", "%d frames for %d packets", len(fr), len(pk))
+		}
+		if answered != len(reqs) {
+			x.Failf("wsp request-unanswered", "%d of %d wrapped requests answered", answered, len(reqs))
+		}
+		x.Observe("frames=%d answered=%d", len(fr), answered)
+		s.Close()
+		c.Ctl.ClientClose()
+		c.Data.ClientClose()
+		vrt.WhenIdle()
+		for _, b := range vrt.Blocked() {
+			x.Failf("wsp stuck-goroutine "+b.Name, "%s %s", b.Op, b.Frames)
+		}
+	}
+}
+
 func trunc(b []byte, n int) []byte {
 	if len(b) > n {
 		return b[:n]
@@ -118,6 +278,8 @@ func scenarios(thorough bool) []runner.Scenario {
 		{Name: "tcp-2pkts-OPTIONS", Body: tcpScenario(2, []string{"OPTIONS"}), P: p, E: e, Shards: sh, Setup: limitOn},
 		{Name: "tcp-3pkts-OPTIONS-PLAY", Body: tcpScenario(3, []string{"OPTIONS", "PLAY"}), P: p, E: e, Shards: sh, Setup: limitOn},
 		{Name: "tcp-2pkts-GET_PARAMETER-OPTIONS", Body: tcpScenario(2, []string{"GET_PARAMETER", "OPTIONS"}), P: p, E: e, Shards: sh, Setup: limitOn},
+		{Name: "ws-rtsp-2pkts-OPTIONS-PLAY", Body: wsScenario(2, []string{"OPTIONS", "PLAY"}), P: p, Shards: sh},
+		{Name: "wsp-2pkts-OPTIONS-PLAY", Body: wspScenario(2, []string{"OPTIONS", "PLAY"}), P: p, Shards: sh},
 	}
 }
 
